@@ -701,18 +701,65 @@ pub fn run(ctx: Ctx) -> ! {
     if flipped == 0 {
         mc_core::report::machinery_failure("C44: no stand-alone transaction with a validity flag in the corpus");
     }
+    // every transaction of the Alonzo-and-later block files also as a stand-alone artefact
+    // (0x84, body, witness set, validity flag, auxiliary data or null), so that it can be read
+    // under each later era as well (a legacy-form output inside a Conway transaction, ...)
+    let mut extracted = 0usize;
+    for a in corpus::block_files() {
+        let Ok(root) = mc_core::refcbor::parse_one(&a.bytes) else { continue };
+        let Some(w) = root.as_array() else { continue };
+        if w.len() != 2 || w[0].as_u64().unwrap_or(0) < 5 {
+            continue;
+        }
+        let Some(b) = w[1].as_array() else { continue };
+        if b.len() < 4 {
+            continue;
+        }
+        let (Some(bodies), Some(wits)) = (b[1].as_array(), b[2].as_array()) else { continue };
+        let invalid: Vec<u64> = b.get(4).and_then(|n| n.as_array()).map(|v| v.iter().filter_map(|x| x.as_u64()).collect()).unwrap_or_default();
+        for (i, body) in bodies.iter().enumerate() {
+            let Some(wit) = wits.get(i) else { continue };
+            let mut tx = vec![0x84u8];
+            tx.extend_from_slice(body.span(&a.bytes));
+            tx.extend_from_slice(wit.span(&a.bytes));
+            tx.push(if invalid.contains(&(i as u64)) { 0xf4 } else { 0xf5 });
+            match b[3].map_get(i as u64) {
+                Some(aux) => tx.extend_from_slice(aux.span(&a.bytes)),
+                None => tx.push(0xf6),
+            }
+            tx_artefacts.push(corpus::Artefact { name: format!("{}#tx{}", a.name, i), bytes: tx });
+            extracted += 1;
+        }
+    }
+    if extracted == 0 {
+        mc_core::report::machinery_failure("C44: no transaction could be extracted from the block files");
+    }
     for a in tx_artefacts {
         let (shape, rt) = match corpus::ref_tx(&a.bytes) {
             Ok(x) => x,
             Err(e) => mc_core::report::machinery_failure(&format!("reference cannot view {}: {e}", a.name)),
         };
+        // the bytes as pallas reads them by default, and under every later era that accepts them
+        let mut readings: Vec<Option<pallas_traverse::Era>> = vec![None];
+        if shape == corpus::TxShape::AlonzoPlus {
+            readings.extend([Some(pallas_traverse::Era::Alonzo), Some(pallas_traverse::Era::Babbage), Some(pallas_traverse::Era::Conway)]);
+        }
         for v in vers {
+          for reading in &readings {
             evals += 1;
-            let label = format!("{} {}", v.name(), a.name);
-            match catch(|| MultiEraTx::decode(&a.bytes).ok().map(|t| (v.map_tx(&t), t.era()))) {
+            let label = format!("{} {}{}", v.name(), a.name, reading.map(|e| format!(" read as {e:?}")).unwrap_or_default());
+            match catch(|| {
+                let t = match reading {
+                    None => MultiEraTx::decode(&a.bytes).ok(),
+                    Some(e) => MultiEraTx::decode_for_era(*e, &a.bytes).ok(),
+                };
+                t.map(|t| (v.map_tx(&t), t.era()))
+            }) {
                 Err(p) => ctx.violation(p.site(), format!("{label}: panicked: {} at {}", p.message, p.location), json!({"tx": a.name, "version": v.name()})),
                 Ok(None) => {
-                    rejected_real.insert(a.name.clone());
+                    if reading.is_none() {
+                        rejected_real.insert(a.name.clone());
+                    }
                 }
                 Ok(Some((nt, era))) => {
                     let mut problems = vec![];
@@ -730,6 +777,7 @@ pub fn run(ctx: Ctx) -> ! {
                     nontrivial.insert(format!("{}|{}", v.name(), a.name));
                 }
             }
+          }
         }
     }
     for r in &rejected_real {
